@@ -22,6 +22,7 @@ import (
 
 var c19Adapters = map[string]string{ // adapter dir -> package name
 	"gin": "gin", "echo": "echo", "grpc": "grpc", "micro": "micro",
+	"go-zero": "go_zero", "kratos": "kratos", "fiber": "fiber", "iris": "iris", "gear": "gear", "goframe": "goframe",
 }
 
 type c19Summary struct {
